@@ -15,6 +15,8 @@ structure Obs where
   idClaims : Claims := {}               -- its decoded claims
   amr : List String := []
   cHashOK : Bool := true                -- c_hash absent (no code in this response) or the hash of exactly that code
+  atHashOK : Bool := true               -- at_hash absent or the OIDC Core 3.1.3.6 hash of exactly the access token of this response
+                                        -- (computed by the observer with the standard library, not with the library under test)
   userClaims : List String := []        -- user-claim names present in the ID token
   jwtAccessToken : Bool := false
   atVerifies : Bool := true             -- op.VerifyAccessToken accepted the JWT access token
@@ -66,6 +68,7 @@ def judge (r : Req) (o : Obs) : Option String :=
     else if !(decide (c.exp - c.iat ≥ r.lifetime + 2 * r.skew - 1) && decide (c.exp - c.iat ≤ r.lifetime + 2 * r.skew + 1)) then some "id_token:lifetime"
     else if r.withAccessToken && c.atHash == "" then some "id_token:at_hash-missing"
     else if !o.cHashOK then some "id_token:c_hash"
+    else if !o.atHashOK then some "id_token:at_hash"
     else if !(o.userClaims.all (allowedUserClaims r).contains) then some "id_token:user-claims-beyond-granted-scopes"
     else none
   else none)
